@@ -112,7 +112,15 @@ def run_one(ctx, rng, cands, d, status):
     main = ['/venv/bin/python', os.path.join(env.REPO, 'main.py'), '-C']
     e2 = {k: v for k, v in os.environ.items() if not k.startswith('LC_') and k != 'LANG'}
     e2['LC_ALL'] = 'C.UTF-8'
-    case = {'lines': lines, 'final_newline': final_nl}
+    # the harness pins its own hash seed for reproducibility; the processes it starts get a different one each, as processes
+    # started by a user do (the display does not depend on it)
+    e2['PYTHONHASHSEED'] = str(rng.randint(1, 2 ** 31))
+    if rng.random() < 0.2:
+        # the interpreter's own switches in the environment (asserts compiled away, unbuffered streams): the display is the same
+        e2.update(rng.choice([{'PYTHONOPTIMIZE': '1'}, {'PYTHONOPTIMIZE': '2'}, {'PYTHONUNBUFFERED': '1'}]))
+        ctx.count('runs_with_interpreter_switches')
+    case = {'lines': lines, 'final_newline': final_nl,
+            'interpreter_env': {k: v for k, v in e2.items() if k in ('PYTHONOPTIMIZE', 'PYTHONUNBUFFERED', 'PYTHONHASHSEED')}}
     shash = h64(lines)
 
     def differs(got, what, extra=None):
